@@ -31,7 +31,7 @@ Definition nlw_inorder (s : state) : Prop :=
 Definition nlw_ooo (s : state) : Prop :=
   quiescentb s = true -> forall x, In x (queue s) -> m_count s < t_semcnt (getth s x).
 
-(* ---- F21 (barging): waiters A:2 (thread 0), B:1 (thread 1); signal(2) by thread 3 wakes A;
+(* ---- F35 (barging): waiters A:2 (thread 0), B:1 (thread 1); signal(2) by thread 3 wakes A;
    thread 2 arrives with wait(1) and takes a token before A runs; A's re-subtract fails and it
    re-queues behind B.  Quiescent, queue [B; A], count 1 >= B's demand 1. *)
 Definition barge_sched : list label :=
@@ -110,7 +110,7 @@ Proof.
 Qed.
 
 (* ---------------------------------------------------------------------------------------- *)
-(* The positive no-lost-wake-up statement under the guard that excludes F21 and F9: every wait
+(* The positive no-lost-wake-up statement under the guard that excludes F35 and F9: every wait
    on the semaphore uses the same demand d.  STATED, NOT PROVED (notes/C02.md gives the
    invariant): kept as a Definition, no theorem claims it. *)
 Definition label_uniform (d : Z) (l : label) : Prop :=
